@@ -23,6 +23,8 @@ class FuncInfo:
     cls: Optional['ClassInfo']
     kind: str                # function | method | property | classmethod | staticmethod
     setter: Optional[ast.FunctionDef] = None
+    cached: bool = False
+    decorators: tuple = ()
 
     @property
     def short(self) -> str:
@@ -213,10 +215,15 @@ class Program:
                     if pname in ci.methods:
                         ci.methods[pname].setter = b
                     continue
-                other = [d for d in decs if d not in ('property', 'classmethod', 'staticmethod')]
+                cached = [d for d in decs if d in ('cached_property', 'functools.cached_property')]
+                if cached:
+                    kind = 'property'
+                other = [d for d in decs if d not in ('property', 'classmethod', 'staticmethod', 'cached_property', 'functools.cached_property')]
                 if other:
-                    raise AnalysisError(f'{m.relpath}:{b.lineno}: unsupported decorator {other} on {node.name}.{b.name}')
+                    kind = 'opaque'          # unknown decorator: calls are treated as opaque, never guessed
                 fi = FuncInfo(f'{m.name}:{node.name}.{b.name}', b.name, b, m, ci, kind)
+                fi.cached = bool(cached)
+                fi.decorators = decs
                 ci.methods[b.name] = fi
                 self.functions[fi.qualname] = fi
             elif isinstance(b, ast.AsyncFunctionDef):
